@@ -18,9 +18,22 @@ def declared_classes():
             maven.VersionRangeParseError, maven.RestrictionParseError, nuget.InvalidNuGetVersion, cerr.ConanException)
 
 
+TOKENS = ["*", "||", ",", "x", "X", "-", "+", "~", "^", "<", ">", "=", "!=", "<>", "===", "~=", "~>", "[", "]", "(", ")", "all", "none", ";", "|"]
+
+
 def mutate(r, s):
+    if r.random() < 0.3:
+        # token level: a special token is inserted between, or takes the place of, the blank/comma separated pieces
+        import re as _re
+        parts = _re.split(r"(\s+|,)", s)
+        i = r.randrange(len(parts) + 1)
+        if r.random() < 0.5 and parts:
+            parts[r.randrange(len(parts))] = r.choice(TOKENS)
+        else:
+            parts.insert(i, r.choice([" ", ""]) + r.choice(TOKENS) + r.choice([" ", ""]))
+        s = "".join(parts)
     s = list(s)
-    for _ in range(r.randint(1, 3)):
+    for _ in range(r.randint(0, 3)):
         k = r.randrange(7)
         if k == 0 and s:
             del s[r.randrange(len(s))]
@@ -178,7 +191,7 @@ def run(ctx):
         for s in seeds + ["", " ", "*", "||", ","] + NONASCII[:4]:
             attempt("from_native:" + cname, declared, lambda: rcls.from_native(s), s, "valid+edge")
     # ---- advisory converters
-    adv_seeds = [">= 1.0, < 2.0", "= 1.0", ">=4.0.0 <4.0.10", "[3.0.0,3.1.25)", "(,9.21]", ">=1.0||<0.5", "<= 2.0", "!= 1.5", "==1.0"]
+    adv_seeds = ["*", "* <1.0", "*, >=4.0.0, <4.0.10", ">=1.0 *", "[1.4.5,*", ">= 1.0, < 2.0", "= 1.0", ">=4.0.0 <4.0.10", "[3.0.0,3.1.25)", "(,9.21]", ">=1.0||<0.5", "<= 2.0", "!= 1.5", "==1.0"]
     for _ in range(n):
         s = mutate(r, r.choice(adv_seeds)) if r.random() < 0.8 else "".join(r.choice(CHARS) for _ in range(r.randint(0, 10)))
         scheme = r.choice(list(vr.RANGE_CLASS_BY_SCHEMES))
